@@ -495,6 +495,11 @@ def check(ctx):
     import core as _core
     nf = _core.adopt(ctx, c04, lambda o: o["rule"] in ("C04.a", "C04.b", "C04.g"), "C03.f")
     ctx.floor("C03.f", nf, 12, "shared cleanup-ordering obligations (C04.a/b)")
+    # ---- C03.i the data a run reads is still there when it runs: the payload's reader count is the number of commands queued
+    # for it (a count taken over fewer listeners than are queued releases the payload before its last reader ran, which then
+    # reads nothing; shared with C05.a / C05.b) ----
+    ni = _core.adopt(ctx, _c05, lambda o: o["rule"] in ("C05.a", "C05.b"), "C03.i")
+    ctx.floor("C03.i", ni, 4, "shared reader-count obligations (C05.a/b)")
     ctx.sample({"trackers": sorted(t.split("::")[-1] for t in trackers), "readers": sorted(r.split("::")[-1] for r in readers)})
 
 
